@@ -5,7 +5,7 @@ From Coq Require Import ExtrOcamlBasic.
 From Rustun Require Import Codec.Filter Codec.DecodeLoop Codec.FilterCase.
 From Rustun Require Import Base.Tlv Agent.Reasm Agent.ReasmDrive Agent.ReasmRs.
 From Rustun Require Import Agent.Rto Agent.Model Agent.Monitors.
-From Rustun Require Import Codec.Wire Codec.WireMon.
+From Rustun Require Import Codec.Wire Codec.WireMon Codec.EncodeMsg.
 From Rustun Require Import Codec.AttrValue.
 Extraction Language OCaml.
 Extraction "model.ml"
@@ -13,4 +13,5 @@ Extraction "model.ml"
   ReasmRs.run_log ReasmRs.monitor_C16
   Model.step Model.init Model.wire_type Monitors.monitor_step Monitors.mall0
   Wire.decode Wire.dec_ok_basic WireMon.monitor_C18 WireMon.monitor_C03dec WireMon.rfc_verdict
+  EncodeMsg.encode_msg EncodeMsg.monitor_C14 EncodeMsg.msg_type_of
   AttrValue.av_case_dec AttrValue.av_case_enc AttrValue.av_wf.
